@@ -94,19 +94,19 @@ CLAIMS.update({
             "count, neither earlier nor later; plus the segment formulas, law divisors and their monotonicity, CPU time antitone in CPUs, flat beyond each law's bound, memory profile. "
             "Tie: thousands of single-container runs of the real code against the specification, exact on the binary-exact lattice, either-side only at flagged float boundaries on "
             "decimal tick rates; the (law, cpus 1..128) grid of the real scaling functions.", "Props/C05.lean, Proofs/Profile.lean; sqrt/log laws via integer sqrt and an enclosure table"),
-    "C08": ("PARTIAL (the whole-run clause is a theorem for three of the five policies: naive, the `eudoxia init` starter, overbook). Lean theorems: (1) EXECUTION NEVER GETS STUCK: on consistent containers (head operator RUNNING once started, the rest ASSIGNED, "
+    "C08": ("PARTIAL (the whole-run clause is a theorem for naive, the `eudoxia init` starter, overbook, and priority with single-operator containers; not for priority with multi-operator containers nor priority-pool). Lean theorems: (1) EXECUTION NEVER GETS STUCK: on consistent containers (head operator RUNNING once started, the rest ASSIGNED, "
             "every parent COMPLETED or earlier in the container) Container.tick / kill / suspend never raise; a whole pool tick and the whole Executor.run_one_tick raise ONLY AT THEIR GATES "
             "(`executor_tick_raises_only_at_the_gates`: from a ready world, after any chain of accepted Assignment constructions in dependency order and with distinct suspension requests, the tick "
             "either succeeds and leaves a ready world or refuses the commands up front - unknown pool, unknown/unsuspendable container, oversold CPU/RAM, wrong operator count - in a well-defined "
             "state), and it succeeds when the gates pass; (2) WHOLE RUNS: the naive scheduler in closed loop with the executor never raises, for every sequence of arrival batches, with "
             "single-operator containers (= the `eudoxia init` starter scheduler) and with multi-operator containers (the default), from any ready world with well-formed pipelines - by induction over "
             "ticks, carrying the ownership/readiness invariants and 'a pipeline with an operator in a container has no operator waiting'; a concrete world (diamond DAG, two pools) meets every "
-            "hypothesis (non-vacuity, checked by the kernel); (3) per round of priority / priority-pool: no pool is asked for more CPU or RAM than it has free, assignments are a chain of accepted "
-            "constructions (no operator twice, all PENDING/FAILED before), priority's suspensions are accepted by verify_valid_suspend; overbook: C18. NOT proved: whole-run theorems for priority and "
+            "hypothesis (non-vacuity, checked by the kernel); likewise PRIORITY WITH SINGLE-OPERATOR CONTAINERS in closed loop with the executor never raises over whole runs (`priority_single_operator_run_never_raises`: no overcommit, pipelines arriving together distinct; the invariant carries 'queues hold distinct ready operators, one per job, with positive retry sizes' and 'no container is ever suspendable', so the pre-emption machinery provably stays idle in this mode; same concrete world); (3) per round of priority / priority-pool: no pool is asked for more CPU or RAM than it has free, assignments are a chain of accepted "
+            "constructions (no operator twice, all PENDING/FAILED before), priority's suspensions are accepted by verify_valid_suspend; overbook: C18. NOT proved: whole-run theorems for priority with multi-operator containers (where it pre-empts) and "
             "priority-pool (for priority-pool the statement is false in one mode: known finding D11); overbook's whole-run theorem is in Props/C18; parameter validation and end-of-run aggregation of run_simulator are exercised, "
             "not modelled. Tie: closed-loop lock-step of each real scheduler + real Executor against the model on generated configurations (tiny pools, coarse ticks, zero-tick segments, both container "
             "modes, DAGs, fractional pool sizes), run_simulator end-to-end incl. the `eudoxia init` template and runs shorter than a tick; `check_C08` on every implementation trace.",
-            "Props/C08.lean; Proofs/Progress.lean, Live.lean, WorldLive.lean, NaiveSafe.lean, NaiveLoop.lean, NaiveMulti.lean, NaiveExample.lean (about 4 000 lines of proof)"),
+            "Props/C08.lean; Proofs/Progress.lean, Live.lean, WorldLive.lean, NaiveSafe.lean, NaiveLoop.lean, NaiveMulti.lean, NaiveExample.lean, PrioBudget.lean, CtrKept.lean, PriorityLoop.lean, PriorityExample.lean (about 5 000 lines of proof)"),
     "C12": ("Lean theorems, for every world and queue state, per round of the priority scheduler: each queue run consumes a prefix of its FIFO queue and assigns in queue order; a lower "
             "queue is served only if the higher one was drained, and anything left waiting implies every pool is out of free CPU or RAM in the scheduler's accounting (strict priority + work "
             "conservation); the chosen pool is open and has the most free RAM; suspensions only while a query job is still waiting, at most one per waiting query job, only active non-query "
@@ -118,7 +118,7 @@ CLAIMS.update({
             "queued together as one job; a retry whose doubled request reaches half of the pool is never assigned; the scheduler's own assertion cannot be tripped by the Assignment "
             "constructor. Tie: closed-loop lock-step on two pools with mixed priorities and OOM retries; `check_C16` on every implementation trace.", "Props/C16.lean"),
     "C17": ("Lean theorems about the naive scheduler's round for every queue and world: at most one container per pool, sized to all free CPU and RAM of that pool; pools with nothing free are "
-            "skipped; the queue is served in order; work handed out belongs to a pipeline without failed operators and (single-operator mode) is one ready operator; no suspensions; "
+            "skipped; FIRST COME FIRST SERVED: each pool's container goes to the first pipeline of the queue that is neither finished nor failed and has something ready, the pipelines served in a round are a subsequence of (queue ++ arrivals) in that order, the part not reached stays in place ahead of the ones scanned and kept (`first_eligible_pipeline_is_served`, `pipelines_are_served_in_queue_order`, `round_is_first_come_first_served`); work handed out belongs to a pipeline without failed operators and (single-operator mode) is one ready operator; no suspensions; "
             "in multi-operator mode everything put into one container is in dependency order; and the closed loop naive + executor never raises over whole runs in either mode (C08 theorems). "
             "Tie: closed-loop lock-step; `check_C17` on every implementation trace.", "Props/C17.lean"),
     "C18": ("Lean theorems about the overbook scheduler's round, for every queue and world: every container gets exactly one operator, one CPU and a memory limit equal to its pool's "
